@@ -740,6 +740,10 @@ func (m *Machine) setupModels() {
 			return Slice{Blob: &Blob{ID: id, Len: m.symLen(1, uint64(mx), "clen")}}
 		}
 		n := len(src.V) + 2
+		if m.opt.CompressDiv > 1 {
+			// a codec that shrinks its input (real ones do on repetitive data)
+			n = len(src.V)/m.opt.CompressDiv + 1
+		}
 		id := m.newBlob("snappy", -1, snap, n)
 		bs := blobBytes(id, n)
 		if len(dst.V) >= n {
@@ -789,6 +793,9 @@ func (m *Machine) setupModels() {
 			out = Slice{Blob: &Blob{ID: id, Len: m.symLen(18, uint64(len(snap)+64), "zlen")}}
 		} else {
 			n := len(snap) + 18
+			if m.opt.CompressDiv > 1 {
+				n = len(snap)/m.opt.CompressDiv + 1
+			}
 			id := m.newBlob("gzip", -1, snap, n)
 			out = Slice{V: blobBytes(id, n)}
 		}
